@@ -333,6 +333,117 @@ func c07Body(t *testing.T, depth, devBound int, fixture bool, subset []int, slow
 	}
 }
 
+
+// c07StopBody: Manager.Stop at every point. The history runs with quiescence between operations,
+// except that the last operation returns as soon as it is acknowledged; from then on every
+// scheduler step offers "stop now" next to the pending deliveries (one deviation), and the
+// remaining deliveries are granted while the manager shuts down.
+func c07StopBody(t *testing.T, depth int, fixture bool, subset []int, slow bool) mc.Body {
+	all := c07Ops()
+	var ops []c07Op
+	for _, i := range subset {
+		ops = append(ops, all[i])
+	}
+	return func(x *mc.X) mc.Outcome {
+		var out mc.Outcome
+		leak := bubble(t, func() {
+			g, err := newRig(x, false)
+			if err != nil {
+				out = mc.Outcome{Violation: "HARNESS: " + err.Error(), Key: "harness"}
+				return
+			}
+			m := &c07Model{root: g.inst.RootID, typ: map[string]string{}, edges: map[[2]string]bool{}}
+			if slow {
+				g.reg.stopDelay = 3 * time.Second
+			}
+			stopped := false
+			defer func() {
+				if !stopped {
+					g.stopAll()
+				}
+			}()
+			if fixture {
+				err := g.s.do(func() error {
+					for _, i := range []int{2, 4, 6} { // create G, N1 under G, P
+						if _, e := all[i].do(g, m); e != nil {
+							return e
+						}
+					}
+					return nil
+				}, false)
+				if err != nil {
+					out = mc.Outcome{Violation: "HARNESS: fixture: " + err.Error(), Key: "harness"}
+					return
+				}
+				x.Logf("fixture: G, N1 under G, P")
+			}
+			g.startManager()
+			g.s.quiesce()
+			for d := 0; d < depth; d++ {
+				op := ops[x.Choose(len(ops), "op")]
+				last := d == depth-1
+				var ok bool
+				f := func() error {
+					var e error
+					ok, e = op.do(g, m)
+					return e
+				}
+				var err error
+				if last {
+					err = g.s.doAck(f)
+				} else {
+					err = g.s.do(f, false)
+				}
+				if !ok {
+					out = mc.Outcome{Trivial: true, Obs: "inapplicable"}
+					return
+				}
+				if err != nil {
+					out = mc.Outcome{Violation: "operation " + op.name + " refused: " + err.Error(), Key: "legal-write-refused"}
+					return
+				}
+				x.Logf("%s", op.name)
+				if !last {
+					g.s.quiesce()
+				}
+			}
+			// deliveries continue (oldest first, or one reordering) until the explorer picks "stop now"
+			g.s.choose = true
+			n := 0
+			for idle := 0; n < 10000 && idle < 30; n++ {
+				granted, extra := g.s.step(1, "stop now")
+				if extra >= 0 {
+					break
+				}
+				if !granted {
+					// nothing deliverable: polling loops and timers need (virtual) time
+					idle++
+					time.Sleep(10 * time.Millisecond)
+					continue
+				}
+				idle = 0
+			}
+			x.Logf("Manager.Stop after %d further scheduler steps", n)
+			stopped = true
+			probs := g.stopAll()
+			for k, c := range g.reg.maxRun {
+				if c > 1 {
+					probs = append(probs, fmt.Sprintf("placement %s had %d clients running at the same time", k, c))
+				}
+			}
+			if len(probs) > 0 {
+				out = mc.Outcome{Violation: strings.Join(probs, "; ") + "\nhistory: " + strings.Join(x.History(), "; "), Key: "stop-does-not-finish"}
+				return
+			}
+			out.Obs = fmt.Sprint(n, "|", len(g.reg.events))
+		})
+		if leak != "" && out.Violation == "" && !out.Trivial {
+			out.Obs += "|leak"
+		}
+		return out
+	}
+}
+
 func TestC07(t *testing.T) {
 	runCheck(t, "C07", "model_checking", func(r *mc.Report, t *testing.T) {
 		depth, dev := 3, 1
@@ -348,6 +459,15 @@ func TestC07(t *testing.T) {
 		defer r.Explore(mc.Config{Name: fmt.Sprintf("group-churn-slow-clients-d%d", cd), Serial: true, SplitDepth: 3, DevBound: 0,
 			Rule: fmt.Sprintf("start state {group G, vNode N1 under G, custom parent P}, instrumented clients that keep running for 3 s after Stop; all histories of %d operations over 8 (delete/undelete G, delete/undelete N1 under G, point update, unrelated node created = rescan trigger, a minute passes, N1 mirrored under the root); same oracles", cd)},
 			c07Body(t, cd, 0, true, churn, true))
+		// third part: Manager.Stop at every point of the delivery schedule that follows the last operation
+		stopOps := []int{0, 1, 7, 3, 2, 5, 4, 9, 11, 12}
+		sd := 2
+		if thorough() {
+			sd = 3
+		}
+		defer r.Explore(mc.Config{Name: fmt.Sprintf("stop-at-every-point-d%d", sd), Serial: true, SplitDepth: 2, DevBound: 1,
+			Rule: fmt.Sprintf("start state {group G, vNode N1 under G, custom parent P}, clients that keep running for 3 s after Stop; all histories of %d operations over 10 (create / delete N1 under the root, create N2 under P, delete / undelete G, delete / undelete N1 under G, add a child, point update, unrelated node created); the last operation returns as soon as it is acknowledged and Manager.Stop is issued before each of the scheduler steps that follow (one deviation: the stop point, or one reordering of two deliveries); the remaining deliveries are granted during the shutdown; oracle: Run returns within 6 s, no client is left running, never two clients per placement", sd)},
+			c07StopBody(t, sd, true, stopOps, true))
 		kids := []int{9, 10, 11, 5, 4, 13}
 		defer r.Explore(mc.Config{Name: "child-churn-d3", Serial: true, SplitDepth: 2, DevBound: 0,
 			Rule: "start state {group G, vNode N1 under G, custom parent P}; all histories of 3 operations over 6 (add / remove / re-add a child of N1 — the re-add is a bare tombstone=0 edge point —, point update, delete / undelete N1, a minute passes); same oracles (the client's children must be the node's live children)"},
@@ -366,5 +486,8 @@ func init() {
 	churn := []int{2, 3, 4, 5, 11, 12, 13, 0}
 	bodies["C07/child-churn-d3"] = func(t *testing.T) mc.Body { return c07Body(t, 3, 0, true, []int{9, 10, 11, 5, 4, 13}, false) }
 	bodies["C07/group-churn-slow-clients-d4"] = func(t *testing.T) mc.Body { return c07Body(t, 4, 0, true, churn, true) }
+	stopOps := []int{0, 1, 7, 3, 2, 5, 4, 9, 11, 12}
+	bodies["C07/stop-at-every-point-d2"] = func(t *testing.T) mc.Body { return c07StopBody(t, 2, true, stopOps, true) }
+	bodies["C07/stop-at-every-point-d3"] = func(t *testing.T) mc.Body { return c07StopBody(t, 3, true, stopOps, true) }
 	bodies["C07/group-churn-slow-clients-d5"] = func(t *testing.T) mc.Body { return c07Body(t, 5, 0, true, churn, true) }
 }
